@@ -148,6 +148,10 @@ func checkC08(r *Run) {
 					r.Violation("strict-error/unexpected end of JSON input", fmt.Sprintf("UnmarshalJSONStrict fails on %s: %s", q.Doc, resp.StrictErr), replay)
 					continue
 				}
+				if pm := strictPathRe.FindStringSubmatch(firstLine(resp.StrictErr)); pm != nil && belowNullElement(q.Doc, "."+pm[1]) {
+					r.Count("strict_errors_below_a_null_collection_element(C01 finding, not judged here)", 1)
+					continue
+				}
 				r.Violation("strict-rejects-constraint-only-fault/"+f.Class+"/"+maskMsg(afterColon(firstLine(resp.StrictErr))), fmt.Sprintf("the strict decoder rejects %s whose only fault is a %s constraint: %s", q.Doc, f.Class, resp.StrictErr), replay)
 			}
 		case "unknown-key", "missing-required", "null-required", "wrong-type":
